@@ -704,6 +704,127 @@ def _correct_history(chk):
             ["hiten.algorithms.types.services.orbits:_OrbitCorrectionService.correct"], "B4 exact evaluation", th)
 
 
+_REPLAY_STABILITY = """
+import warnings, logging
+warnings.filterwarnings("ignore"); logging.disable(logging.CRITICAL)
+from hiten import System
+from hiten.algorithms.linalg.options import EigenDecompositionOptions
+def counts(p, o): return [len(v) for v in p.dynamics.compute_stability(o).eigenvalues]
+A, B = EigenDecompositionOptions(delta=1e-6, tol=1e-6), EigenDecompositionOptions(delta=0.9, tol=1e-6)
+p = System.from_mu(0.04).get_libration_point(4)
+seen = [counts(p, A), counts(p, B), counts(p, A)]
+fresh = counts(System.from_mu(0.04).get_libration_point(4), A)
+print("history A, B, A:", seen, "fresh point with A:", fresh)
+print("CONFIRMED" if seen[2] != fresh else "NOT-CONFIRMED")
+"""
+
+
+def _stability_histories(chk):
+    """compute_stability(options) hands out a pipeline: after EVERY history of option / configuration changes the
+    handle returned by a call carries the results a fresh service in the same logical state computes for that call"""
+    import hiten.algorithms.types.services.base as sb
+    import hiten.algorithms.types.services.libration as lib
+    import hiten.algorithms.types.services.manifold as man
+    from hiten.algorithms.linalg.base import StabilityPipeline
+    from hiten.algorithms.linalg.config import EigenDecompositionConfig
+    from hiten.algorithms.linalg.options import EigenDecompositionOptions
+    from hiten.algorithms.linalg.types import _ProblemType, _SystemType
+    from pyvc.core import real_self
+
+    class Engine:
+        _interface = None
+        backend = "BACKEND"
+
+        def set_interface(self, interface):
+            self._interface = interface
+
+        def solve(self, problem):
+            dom, cfg, opt = problem
+            tag = (repr(dom), cfg, tuple(sorted(opt.to_dict().items())))
+            return _Obj(stable=("stable",) + tag, unstable=(), center=("center",) + tag, Ws=("Ws",) + tag, Wu=(), Wc=())
+
+    class Interface:
+        def bind_backend(self, backend):
+            pass
+
+        def create_problem(self, *, domain_obj, config, options):
+            return (domain_obj, config, options)
+
+    class Pipe(StabilityPipeline):
+        @classmethod
+        def with_default_engine(cls, *, config, interface=None, backend=None):
+            return StabilityPipeline(config, Engine(), Interface(), None)  # noqa: real facade, stub engine
+
+    OPT = {"A": EigenDecompositionOptions(delta=1e-6, tol=1e-6), "B": EigenDecompositionOptions(delta=0.5, tol=1e-6)}
+    CFG = {"C1": EigenDecompositionConfig(problem_type=_ProblemType.EIGENVALUE_DECOMPOSITION, system_type=_SystemType.CONTINUOUS),
+           "C2": EigenDecompositionConfig(problem_type=_ProblemType.EIGENVALUE_DECOMPOSITION, system_type=_SystemType.DISCRETE)}
+    alphabet = [("compute", "A"), ("compute", "B"), ("compute", None), ("options", "A"), ("options", "B"),
+                ("config", "C1"), ("config", "C2")]
+
+    def make(kind):
+        if kind == "libration":
+            svc = real_self(lib._LibrationDynamicsService, _generator=None, _eigendecomposition_config=CFG["C1"],
+                            _eigendecomposition_options=OPT["A"])
+            sb._DynamicsServiceBase.__init__(svc, "POINT")
+        else:
+            orbit = _Obj(initial_state=_np.array([1.0, 0, 0, 0, 2.0, 0]), period=2.5)
+            svc = real_self(man._ManifoldDynamicsService, _generator=None, _eigendecomposition_config=CFG["C1"],
+                            _eigendecomposition_options=OPT["A"], _manifold_result=None, _stable=1, _direction=1, _forward=-1)
+            sb._DynamicsServiceBase.__init__(svc, _Obj(_generating_orbit=orbit))
+            svc.compute_stm = lambda steps=2000: (None, None, "PHI_T", None)
+        return svc
+
+    def apply(svc, op):
+        k, a = op
+        if k == "compute":
+            r = type(svc).compute_stability(svc, OPT[a] if a else None)
+            return (r.eigenvalues, r.eigenvectors, r.is_stable)
+        if k == "options":
+            svc.eigendecomposition_options = OPT[a]
+        else:
+            svc.eigendecomposition_config = CFG[a]
+        return None
+
+    def th(kind):
+        def run_():
+            import itertools
+            mod = lib if kind == "libration" else man
+            saved = mod.StabilityPipeline
+            mod.StabilityPipeline = Pipe
+            n = 0
+            try:
+                for L in (1, 2, 3, 4):
+                    for hist in itertools.product(alphabet, repeat=L):
+                        if hist[-1][0] != "compute":
+                            continue
+                        svc = make(kind)
+                        for op in hist[:-1]:
+                            apply(svc, op)
+                        got = apply(svc, hist[-1])
+                        # fresh twin in the same logical state: the settings in force, nothing computed before
+                        twin = make(kind)
+                        for op in hist[:-1]:
+                            if op[0] != "compute":
+                                apply(twin, op)
+                        want = apply(twin, hist[-1])
+                        n += 1
+                        if got != want:
+                            raise Refuted(f"{kind}: compute_stability after a history returns another request's results",
+                                          f"history {list(hist)}: the last call returns {got[0][0][:1] + got[0][0][2:]}, a fresh "
+                                          f"service in the same state computes {want[0][0][:1] + want[0][0][2:]}",
+                                          replay=_REPLAY_STABILITY, inputs={"history": [list(o) for o in hist]})
+            finally:
+                mod.StabilityPipeline = saved
+            if n < 100:
+                raise Refuted("vacuous", f"only {n} histories explored")
+        return run_
+    for kind, fn in (("libration", "hiten.algorithms.types.services.libration:_LibrationDynamicsService.compute_stability"),
+                     ("manifold", "hiten.algorithms.types.services.manifold:_ManifoldDynamicsService.compute_stability")):
+        chk.obl(f"{kind} compute_stability: over all histories of length <= 4 of (compute A | B | default, set options, set "
+                f"config) the returned pipeline carries what a fresh service in the same state computes",
+                "K2 postconditions (closed histories, bounded-exhaustive)", [fn], "B4 exact evaluation", th(kind))
+
+
 def _primitives(chk):
     import hiten.algorithms.types.services.base as sb
 
@@ -868,6 +989,7 @@ def run(chk):
     _latest_results(chk)
     _handed_out_objects(chk)
     _correct_history(chk)
+    _stability_histories(chk)
     _pickle_histories(chk)
     if chk.tier == "thorough":
         _io_witness(chk)
